@@ -77,8 +77,14 @@ pub fn gen_knobs(rng: &mut Rng, extreme: bool) -> Knobs {
 
 pub fn gen_f32_value(rng: &mut Rng, k: &Knobs) -> f32 {
     if k.extreme && rng.chance(0.15) {
-        let mag = *rng.pick(&[1e-30f32, 1e-10, 1e10, 1e20, 1e30]);
         let sign = if rng.chance(0.5) { -1.0 } else { 1.0 };
+        // Values close to the largest finite f32 (and of either sign, so that differences of two
+        // values overflow although every convex combination is finite) - unless a Back easing may
+        // legitimately overshoot beyond the keyframe values.
+        if !k.narrow_u8 && rng.chance(0.4) {
+            return sign * *rng.pick(&[3.0e38f32, 2.5e38, 1.7e38, f32::MAX / 1.0001]);
+        }
+        let mag = *rng.pick(&[1e-30f32, 1e-10, 1e10, 1e20, 1e30]);
         return sign * mag * (1.0 + rng.unit() as f32);
     }
     match k.value_style {
